@@ -6,6 +6,7 @@ import Ztr.Model.Digraph
 import Ztr.Model.Channel
 import Ztr.Model.Suites
 import Ztr.Model.Runner
+import Ztr.Model.Whole
 import Ztr.Model.Bytecode
 import Ztr.Model.Threads
 import Ztr.Model.Bracket
@@ -252,8 +253,8 @@ def errJson : Ztr.Runner.Err → Json
   | .layerTearDown l => Json.arr #["layerTearDown", jN l]
   | .child l => Json.arr #["child", jN l]
 
-/-- `world`: one runner process on a test world -/
-def opWorld (j : Json) : Except String Json := do
+/-- the world and the options of a `world` / `whole` request -/
+def worldOf (j : Json) : Except String (Ztr.Runner.World × Ztr.Runner.Opts) := do
   let G ← graphOf j
   let infos ← (← J.arr! j "info").toList.mapM (fun (x : Json) => do
     let a ← x.getArr?
@@ -298,8 +299,13 @@ def opWorld (j : Json) : Except String Json := do
       if a.size ≠ 2 then throw "resume must be [layer, number]"
       return some ((← a[0]!.getNat?, ← a[1]!.getNat?) : Nat × Nat)
     | .error _ => return none : Except String (Option (Nat × Nat)))
-  let childBad ← J.nats! j "childBad"
   let o : Ztr.Runner.Opts := { repeat_ := repeat_, stopOnError := stopOnError, buffer := buffer, processes := processes, resume := resume }
+  return (w, o)
+
+/-- `world`: one runner process on a test world -/
+def opWorld (j : Json) : Except String Json := do
+  let (w, o) ← worldOf j
+  let childBad ← J.nats! j "childBad"
   let r := Ztr.Runner.runProcess w o (fun l => childBad.contains l)
   let fs := Ztr.Runner.finalState w o (fun l => childBad.contains l)
   return Json.mkObj [
@@ -310,6 +316,26 @@ def opWorld (j : Json) : Except String Json := do
     ("skipped", jN r.skipped), ("failed", Json.bool r.failed),
     ("aborted", Json.bool r.aborted), ("interrupted", Json.bool r.interrupted),
     ("leftover", jNats r.leftover)]
+
+/-- `whole`: the parent and the subprocesses it starts, composed by `Model/Whole`; `lost` lists the
+layers whose subprocess does not deliver its report -/
+def opWhole (j : Json) : Except String Json := do
+  let (w, o) ← worldOf j
+  let lost ← J.nats! j "lost"
+  let fate : Nat → Ztr.Runner.Fate := fun l => if lost.contains l then .lost else .completes
+  let P := Ztr.Runner.parentOut w o fate
+  let kids := Ztr.Runner.spawnedLayers P.trace
+  let t := Ztr.Runner.wholeTotals w o fate
+  return Json.mkObj [
+    ("totals", jNats [t.1, t.2.1, t.2.2.1, t.2.2.2]),
+    ("failed", Json.bool (Ztr.Runner.wholeFailed w o fate)),
+    ("spawned", Json.arr (kids.map (fun l => jNats [l, Ztr.Runner.numberOf w o l])).toArray),
+    ("parentTrace", Json.arr (P.trace.map evJson).toArray),
+    ("children", Json.arr (kids.map (fun l =>
+      let c := Ztr.Runner.childOut w o l
+      Json.mkObj [("layer", jN l), ("ran", jN c.ran), ("failures", jNats c.failures),
+        ("errors", Json.arr (c.errors.map errJson).toArray), ("skipped", jN c.skipped),
+        ("failed", Json.bool c.failed)])).toArray)]
 
 /-- `proto`: the unittest call sequence of one test script -/
 def opProto (j : Json) : Except String Json := do
@@ -454,13 +480,23 @@ def opDiscovery (j : Json) : Except String Json := do
   let fIgn : List Nat → Bool := fun n => ign.contains n
   let fIgf : List Nat → Bool := fun n => igf.contains n
   let e : Ztr.Discovery.Env := { identifier := fIdent, testsPat := fTp, testFilePat := fTfp, ignoreDir := fIgn, ignoreFolders := fIgf, usecompiled := usec }
-  let files := Ztr.Discovery.findTestFiles e roots
-  let mods := Ztr.Discovery.importedModules e (fun m => accepted.contains m) roots pkgs
-  let allMods := files.map (fun p => Ztr.Discovery.moduleName e roots pkgs p)
+  -- `--package`: the directories of the named packages (`__path__`), in option order; absent/null without `-s`
+  let pkgDirs ← (do
+    match j.getObjVal? "packageDirs" with
+    | .ok Json.null => return none
+    | .ok v => return some (← (← v.getArr?).toList.mapM (fun (x : Json) => do
+        (← x.getArr?).toList.mapM (fun (y : Json) => do (← y.getArr?).toList.mapM (fun z => z.getNat?))))
+    | .error _ => return none : Except String (Option (List (List (List Nat)))))
+  -- roots and pkgs must pair up (`zip` would silently drop the excess)
+  if roots.length ≠ pkgs.length then throw "roots and packages differ in length"
+  let files := Ztr.Discovery.findTestFilesS e roots pkgs pkgDirs
+  let mods := Ztr.Discovery.importedModulesS e (fun m => accepted.contains m) roots pkgs pkgDirs
+  let cands := files.map (fun p => Ztr.Discovery.moduleNamesS e roots pkgs pkgDirs p)
   return Json.mkObj [("files", Json.arr (files.map jNatss).toArray),
     ("imported", Json.arr (mods.map jNatss).toArray),
-    ("modules", Json.arr (allMods.map (fun m => match m with | some x => jNatss x | none => Json.null)).toArray),
-    ("candidates", Json.arr (files.map (fun p => Json.arr ((Ztr.Discovery.moduleNames e roots pkgs p).map jNatss).toArray)).toArray)]
+    ("modules", Json.arr (cands.map (fun m => match m.head? with | some x => jNatss x | none => Json.null)).toArray),
+    ("candidates", Json.arr (cands.map (fun c => Json.arr (c.map jNatss).toArray)).toArray),
+    ("startDirs", Json.arr ((Ztr.Discovery.testDirs roots pkgs pkgDirs).map (fun r => jNatss r.1.1)).toArray)]
 
 def dispatch (j : Json) : Except String Json := do
   let op ← J.str! j "op"
@@ -476,6 +512,7 @@ def dispatch (j : Json) : Except String Json := do
   | "xml" => opXml j
   | "discovery" => opDiscovery j
   | "world" => opWorld j
+  | "whole" => opWhole j
   | "proto" => opProto j
   | "suites" => opSuites j
   | "normalize" => opNormalize j
